@@ -72,6 +72,11 @@ pub enum K {
     Prf,
     PermPrf,
     Dup,
+    InputSmallBit,
+    InputSmallByte,
+    Trunc2k,
+    ApplyPermPublic,
+    SortSmall,
 }
 
 #[derive(Clone, Debug, Serialize, Deserialize, PartialEq, Eq, Hash)]
@@ -306,6 +311,26 @@ impl<'a> Builder<'a> {
                 let n = g.input(t.clone()).ok()?;
                 self.inputs.push((n.clone(), t, InKind::Plain));
                 Some(pool.push(n))
+            }
+            K::InputSmallBit | K::InputSmallByte => {
+                if !self.allow_inputs || self.inputs.len() >= 6 {
+                    return None;
+                }
+                let st = if s.k == K::InputSmallBit { BIT } else if s.p[1] & 1 == 0 { ScalarType::U8 } else { ScalarType::I8 };
+                let max = if s.k == K::InputSmallBit { 3 } else { 2 };
+                let t = match s.p[0] % 4 {
+                    0 => scalar_type(st),
+                    k => array_type(vec![(k as u64).min(max)], st),
+                };
+                let n = g.input(t.clone()).ok()?;
+                self.inputs.push((n.clone(), t, InKind::Plain));
+                Some(pool.push(n))
+            }
+            K::Trunc2k => {
+                let ia = pool.pick_where(s.a, |t| is_arr(t) && leaf_st(t) != BIT)?;
+                let w = bits(leaf_st(&pool.types[ia])) as u16;
+                let k = 1 + s.p[0] % (w - 2).max(1);
+                g.truncate(pool.nodes[ia].clone(), 1u128 << k).ok().map(|n| pool.push(n))
             }
             K::Const => {
                 let t = type_from_params(&s.p);
@@ -653,9 +678,13 @@ impl<'a> Builder<'a> {
                 };
                 g.truncate(pool.nodes[ia].clone(), scale).ok().map(|n| pool.push(n))
             }
-            K::Sort => {
+            K::Sort | K::SortSmall => {
                 // key column: a rank-2 BIT array [n,b]; payload: arrays with the same first dimension
-                let want = array_type(vec![2 + (s.p[1] % 4) as u64, 1 + (s.p[2] % 6) as u64], BIT);
+                let want = if s.k == K::SortSmall {
+                    array_type(vec![2 + (s.p[1] % 2) as u64, 1 + (s.p[2] % 2) as u64], BIT)
+                } else {
+                    array_type(vec![2 + (s.p[1] % 4) as u64, 1 + (s.p[2] % 6) as u64], BIT)
+                };
                 let ik = self.partner(pool, s.a, s.p[0], seed, &want, &|t: &Type| {
                     t.is_array() && leaf_st(t) == BIT && shape_of(t).len() == 2 && shape_of(t)[1] <= 12 && shape_of(t)[0] <= 8
                 })?;
@@ -678,12 +707,12 @@ impl<'a> Builder<'a> {
                 let r = g.sort(nt, "key".to_string()).ok()?;
                 Some(pool.push(r))
             }
-            K::ApplyPerm => {
+            K::ApplyPerm | K::ApplyPermPublic => {
                 let ia = pool.pick_where(s.a, |t| t.is_array() && shape_of(t)[0] <= 8)?;
                 let n = shape_of(&pool.types[ia])[0];
                 let st = [UINT64, ScalarType::U32, ScalarType::U16, ScalarType::U8][(s.p[1] % 4) as usize];
                 let pt = array_type(vec![n], st);
-                let ip = if s.p[0] % 3 != 0 && self.allow_inputs && self.inputs.len() < 6 {
+                let ip = if s.k == K::ApplyPerm && s.p[0] % 3 != 0 && self.allow_inputs && self.inputs.len() < 6 {
                     let node = g.input(pt.clone()).ok()?;
                     self.inputs.push((node.clone(), pt, InKind::Perm));
                     pool.push(node)
